@@ -337,6 +337,19 @@ def gen(tier: str, seed: int) -> list[Case]:
         info = {"shapes": ["general-package"], "modules": [m.qname for m in pkg.modules][:6]}
         cases.append(Case(cid=f"c09-g{j}-off", files=files, opts=[], meta={"pair": f"g{j}", "nc": False, **info}, reach=REACH))
         cases.append(Case(cid=f"c09-g{j}-on", files=files, opts=["-nc"], meta={"pair": f"g{j}", "nc": True, **info}, reach=REACH))
+    # present on every seed: re-exporting packages whose paths do and do not change under the conversion, in both processing
+    # orders (a snake_case path before a path the conversion leaves alone, and the other way round), one level and two levels deep
+    files = {"src/pk/__init__.py": ""}
+    for seg, decl in (("a_plain_first".replace("_", ""), "alpha_fn"), ("b_snake", "beta_fn"), ("cplain", "gamma"), ("d_two_words", "delta_one")):
+        files[f"src/pk/{seg}/__init__.py"] = f"from ._impl import {decl}\nfrom ._impl import Cls_{decl} as {decl.title().replace('_', '')}Alias\n"
+        files[f"src/pk/{seg}/_impl.py"] = f"def {decl}(first_arg: int = 0) -> int: ...\n\n\nclass Cls_{decl}:\n    def do_it(self) -> None: ...\n"
+        files[f"src/pk/{seg}/deep_er/__init__.py"] = f"from ._impl2 import {decl}_deep\n"
+        files[f"src/pk/{seg}/deep_er/_impl2.py"] = f"def {decl}_deep(x_y: int = 0) -> int: ...\n"
+        files[f"src/pk/{seg}/plainsub/__init__.py"] = f"from ._impl3 import {decl}sub\n"
+        files[f"src/pk/{seg}/plainsub/_impl3.py"] = f"def {decl}sub(q: int = 0) -> int: ...\n"
+    info = {"shapes": ["reexporting-packages"], "modules": sorted(files)[:6]}
+    cases.append(Case(cid="c09-reexp-off", files=files, opts=[], meta={"pair": "reexp", "nc": False, **info}, reach=REACH))
+    cases.append(Case(cid="c09-reexp-on", files=files, opts=["-nc"], meta={"pair": "reexp", "nc": True, **info}, reach=REACH))
     # ... and packages from C01's library of declaration forms (every form, docstrings of every style)
     from . import c01
 
